@@ -34,6 +34,9 @@ Notation upd := (@r1_update F M (fops F) eq_op eq_op z0 z0 eq_op H sel).
 Notation fin := (@finalize F M (fops F) eq_op z0 H).
 Notation pstep := (@party_step F M (fops F) eq_op eq_op z0 z0 eq_op H sel).
 Notation pfinal := (@party_final F M (fops F) eq_op eq_op z0 z0 eq_op H sel).
+Notation replay := (@r1_replay F M (fops F) eq_op eq_op z0 z0 eq_op H sel).
+Notation pstart := (@party_start F M (fops F) eq_op eq_op z0 z0 eq_op H sel).
+Notation pfinal_from := (@party_final_from F M (fops F) eq_op eq_op z0 z0 eq_op H sel).
 Notation ids g := (map fst (g_map g)).
 
 Lemma has_idE z (m : seq (F * F)) : has_id eq_op z m = (z \in map fst m).
@@ -186,6 +189,46 @@ move=> inv; case: (stepP m inv) => [oc _ _ y //|sk _ _ _ _ _ y yin|sk _ _ _ _ _ 
   by rewrite /gm' map_cat mem_cat yin.
 Qed.
 
+(* ---- round1.Start: replay of stored messages ---- *)
+Notation rfold := (foldl (fun st m => (upd true e st m).1)).
+
+Lemma upd_existed st m : e_existed e -> upd true e st m = (st, OExisted).
+Proof. by rewrite /r1_update => ->. Qed.
+
+Lemma rfold_existed st ms : e_existed e -> rfold st ms = st.
+Proof. by move=> ex; elim: ms => //= m ms IH; rewrite upd_existed. Qed.
+
+Lemma replay_stE st ms : (replay true e st ms).1.1 = rfold st ms.
+Proof.
+elim: ms st => [|m ms IH] st //=.
+case: updP => [oc _ ex|sk s rs g' add gen r' radd rgen _ _ _ _].
+- case: oc ex => /=; try (by move=> _; rewrite -IH; case: (replay _ _ _ _) => [[? ?] ?]).
+  by move=> ex; rewrite rfold_existed.
+- by case: ifP => _; rewrite -IH; case: (replay _ _ _ _) => [[? ?] ?].
+Qed.
+
+Lemma replay_err st ms : e_existed e = false -> (replay true e st ms).2 = false.
+Proof.
+move=> nex; elim: ms st => [|m ms IH] st //=.
+case: updP => [oc _|sk s rs g' add gen r' radd rgen _ _ _ _].
+- rewrite nex implybF; case: oc => //= _; set X := replay _ _ _ _;
+    by have: X.2 = false by [apply: IH]; case: X => [[? ?] ?].
+- case: ifP => _; set X := replay _ _ _ _;
+    by have: X.2 = false by [apply: IH]; case: X => [[? ?] ?].
+Qed.
+
+Lemma inv1_rfold st ms : inv1 st -> inv1 (rfold st ms).
+Proof. by elim: ms st => [|m ms IH] st //= inv; apply: IH; apply: inv1_step. Qed.
+
+Lemma sig_keep st m s : inv1 st -> g_sig (st_g st) = Some s -> g_sig (st_g (upd true e st m).1) = Some s.
+Proof. by move=> inv; case: (stepP m inv) => [oc _ _ //|sk _ _ -> //|sk _ _ -> //]. Qed.
+
+Lemma sig_keep_fold st ms s : inv1 st -> g_sig (st_g st) = Some s -> g_sig (st_g (rfold st ms)) = Some s.
+Proof.
+elim: ms st => [|m ms IH] st //= inv E; apply: IH; first exact: inv1_step.
+exact: sig_keep.
+Qed.
+
 (* ---- the party: runs of baseParty.Update ---- *)
 Notation step1 := (fun ps m => (pstep true e ps m).1).
 
@@ -276,6 +319,24 @@ Qed.
 Lemma pinv_run ms ps : pinv ps -> pinv (foldl step1 ps ms).
 Proof. by elim: ms ps => [|m ms IH] ps //= inv; apply: IH; apply: pinv_step. Qed.
 
+Lemma inv2_rfold st ms : inv2 st -> inv2 (rfold st ms).
+Proof. by elim: ms st => [|m ms IH] st //= inv; apply: IH; apply: inv2_step. Qed.
+
+Lemma pstart_st fut : p_st (pstart true e fut).1.1 = rfold (r_init e) fut.
+Proof.
+rewrite /party_start -replay_stE; case: (replay _ _ _ _) => [[st l] err] /=.
+by case: err => //; case: (st_can st).
+Qed.
+
+Lemma pstart_pinv fut : pinv (pstart true e fut).1.1.
+Proof.
+split; first by rewrite pstart_st; apply: inv2_rfold; apply: inv2_init.
+have := inv2_rfold fut inv2_init; rewrite -replay_stE /party_start.
+case: (replay _ _ _ _) => [[st l] err] /= [_ _ _ _ hdr].
+case: err => //; case c: (st_can st) hdr => //= hdr.
+by case: (fin e st) => //=; apply: hdr.
+Qed.
+
 (* ---- liveness: k members' valid messages are enough, whatever else arrives ---- *)
 
 (* a verify message carrying the sender's valid share for this block and for the beacon *)
@@ -342,44 +403,90 @@ have := IH _ _ inv' nc' sub'; rewrite -catA.
 by case: (honestb m).
 Qed.
 
-Theorem live ms :
-  (k <= size (undup [seq m_sender m | m <- ms & honestb m]))%N ->
-  let pf := foldl step1 (p_init e) ms in
+Lemma rfold_live st ms seen :
+  inv1 st -> {subset seen <= ids (st_g st)} -> g_sig (st_g (rfold st ms)) = None ->
+  {subset seen ++ [seq m_sender m | m <- ms & honestb m] <= ids (st_g (rfold st ms))}.
+Proof.
+elim: ms st seen => [|m ms IH] st seen inv sub /= N; first by rewrite cats0.
+have Eg : g_sig (st_g st) = None.
+  by case E: (g_sig (st_g st)) => [s|] //; rewrite (sig_keep_fold (m :: ms) inv E) in N.
+have sub' : {subset seen ++ (if honestb m then [:: m_sender m] else [::]) <= ids (st_g (upd true e st m).1)}.
+  move=> y; rewrite mem_cat => /orP [/sub|]; first exact: ids_mono.
+  by case: ifP => // hm; rewrite inE => /eqP ->; apply: honest_in.
+have := IH _ _ (inv1_step m inv) sub' N; rewrite -catA.
+by case: (honestb m).
+Qed.
+
+Lemma pstart_open fut : ~~ closedb (p_phase (pstart true e fut).1.1).
+Proof.
+have := inv2_rfold fut inv2_init; have := replay_err (r_init e) fut notex.
+rewrite -replay_stE /party_start; case: (replay _ _ _ _) => [[st l] err] /= -> [_ _ _ _ hdr].
+by case c: (st_can st) hdr => //= hdr; rewrite fin_done //; apply: hdr.
+Qed.
+
+Lemma pstart_seen fut :
+  p_phase (pstart true e fut).1.1 = Collecting ->
+  {subset [seq m_sender m | m <- fut & honestb m] <= ids (st_g (p_st (pstart true e fut).1.1))}.
+Proof.
+move=> ph; have [[_ _ _ canE _]] := pstart_pinv fut; rewrite ph => can.
+rewrite pstart_st in canE can *.
+have N : g_sig (st_g (rfold (r_init e) fut)) = None by move: canE; rewrite can; case: (g_sig _).
+by have := @rfold_live (r_init e) fut [::] inv1_init (fun y => id) N.
+Qed.
+
+(* k valid messages of distinct members among those stored before the round started and those
+   delivered afterwards: the party finishes with the group signature *)
+Theorem live fut ms :
+  (k <= size (undup [seq m_sender m | m <- fut ++ ms & honestb m]))%N ->
+  let pf := foldl step1 (pstart true e fut).1.1 ms in
   p_phase pf = Finished /\ st_hdr (p_st pf) = Some (gsk * hb, gsk * hp).
 Proof.
-move=> kh /=; set pf := foldl step1 (p_init e) ms.
-have [inv2f phh] : pinv pf := pinv_run ms pinv_init.
-have [nc sub] := @live_aux ms (p_init e) [::] pinv_init isT (fun _ y => id).
-rewrite cat0s -/pf in nc sub.
+move=> kh /=; set ps0 := (pstart true e fut).1.1; set pf := foldl step1 ps0 ms.
+have [inv2f phh] : pinv pf := pinv_run ms (pstart_pinv fut).
+have [nc sub] := @live_aux ms ps0 _ (pstart_pinv fut) (pstart_open fut) (@pstart_seen fut).
+rewrite -/pf -map_cat -filter_cat in nc sub.
 case ph: (p_phase pf) phh nc sub => //= can _ sub.
 have [inv1' _ szk canE _] := inv2f.
 have Eg : g_sig (st_g (p_st pf)) = None by move: canE; rewrite can; case: (g_sig _).
-have le : (size (undup [seq m_sender m | m <- ms & honestb m]) <= size (ids (st_g (p_st pf))))%N.
+have le : (size (undup [seq m_sender m | m <- fut ++ ms & honestb m]) <= size (ids (st_g (p_st pf))))%N.
   by apply: uniq_leq_size (undup_uniq _) _ => y; rewrite mem_undup; apply: sub.
 rewrite size_map in le.
 by have := leq_ltn_trans (leq_trans kh le) (szk Eg); rewrite ltnn.
+Qed.
+
+Lemma open_end fut ms : ~~ closedb (p_phase (foldl step1 (pstart true e fut).1.1 ms)).
+Proof.
+by have [] := @live_aux ms _ _ (pstart_pinv fut) (pstart_open fut) (@pstart_seen fut).
 Qed.
 
 End DKG.
 
 End Step.
 
-(* ---- statements on [party_final] (List.fold_left) for Props.v ---- *)
-Notation step1 := (fun e ps m => (pstep true e ps m).1).
-
+(* ---- statements on [party_final_from] (List.fold_left) for Props.v ---- *)
 Lemma pfinalE b e ms : pfinal b e ms = foldl (fun ps m => (pstep b e ps m).1) (p_init e) ms.
 Proof. by rewrite /party_final fold_leftE. Qed.
 
-Theorem set_valid e ms :
-  let st := p_st (pfinal true e ms) in
+Lemma pfinal_fromE b e fut ms :
+  pfinal_from b e fut ms = foldl (fun ps m => (pstep b e ps m).1) (pstart b e fut).1.1 ms.
+Proof. by rewrite /party_final_from fold_leftE. Qed.
+
+Lemma pfinal_from_nil b e ms : pfinal_from b e [::] ms = pfinal b e ms.
+Proof. by []. Qed.
+
+Theorem set_valid e fut ms :
+  let st := p_st (pfinal_from true e fut ms) in
   [/\ uniq (ids (st_g st)), ids (st_g st) = ids (st_r st),
       forall id s, (id, s) \in g_map (st_g st) ->
         exists2 sk, look id (e_members e) = Some sk & s = sk * H (e_bh e) /\ s != 0 &
       forall id s, (id, s) \in g_map (st_r st) ->
         exists2 sk, look id (e_members e) = Some sk & s = sk * H (e_pr e) /\ s != 0].
 Proof.
-rewrite pfinalE /=; have [_ u i _ [vg vr]] := inv1_run ms (inv1_init e : inv1 e (p_st (p_init e))).
-by split.
+rewrite pfinal_fromE /=.
+have i0 : inv1 e (p_st (pstart true e fut).1.1).
+  rewrite /party_start; have := inv1_rfold fut (inv1_init e); rewrite -replay_stE.
+  by case: (replay _ _ _ _) => [[st l] err] /=; case: err => //; case: (st_can st).
+by have [_ u i _ [vg vr]] := inv1_run ms i0.
 Qed.
 
 Section Final.
@@ -392,34 +499,33 @@ Hypothesis gskE : e_gsk e = group_secret (fops F) dealers.
 Hypothesis sel_ok : forall m : seq (F * F), (k <= size m)%N ->
   [/\ uniq (sel m), all (fun i => i < size m)%N (sel m) & (k <= size (sel m))%N].
 
-Theorem recovered_verifies ms :
-  let st := p_st (pfinal true e ms) in
+Theorem recovered_verifies fut ms :
+  let st := p_st (pfinal_from true e fut ms) in
   [/\ forall s, g_sig (st_g st) = Some s -> s = e_gsk e * H (e_bh e),
       forall s, g_sig (st_r st) = Some s -> s = e_gsk e * H (e_pr e),
       forall a b, st_hdr st = Some (a, b) -> st_can st -> a = e_gsk e * H (e_bh e) /\ b = e_gsk e * H (e_pr e) &
       g_sig (st_g st) = None -> (size (g_map (st_g st)) < k)%N].
 Proof.
-rewrite pfinalE /=.
-have [[_ [sg sr] szk _ hdr] _] := pinv_run dealers_k thrE memE gskE sel_ok ms (pinv_init e k0).
+rewrite pfinal_fromE /=.
+have [[_ [sg sr] szk _ hdr] _] :=
+  pinv_run dealers_k thrE memE gskE sel_ok ms (pstart_pinv dealers_k k0 thrE memE gskE sel_ok fut).
 by split=> // a b E /hdr; rewrite E => [[-> ->]].
 Qed.
 
 Hypothesis notex : e_existed e = false.
 Hypothesis nz : [/\ e_gsk e != 0, H (e_bh e) != 0 & H (e_pr e) != 0].
 
-Theorem no_error_end ms : p_phase (pfinal true e ms) <> Closed.
+Theorem no_error_end fut ms : p_phase (pfinal_from true e fut ms) <> Closed.
 Proof.
-rewrite pfinalE.
-have [] := @live_aux e k dealers dealers_k thrE memE gskE sel_ok notex nz ms (p_init e) [::]
-             (pinv_init e k0) isT (fun _ y => id).
-by move=> nc _ E; move: nc; rewrite E.
+rewrite pfinal_fromE => E.
+by have := open_end dealers_k k0 thrE memE gskE sel_ok notex nz fut ms; rewrite E.
 Qed.
 
-Theorem one_faulty_cannot_block ms :
-  (k <= size (undup [seq m_sender m | m <- ms & honestb e m]))%N ->
-  p_phase (pfinal true e ms) = Finished /\
-  st_hdr (p_st (pfinal true e ms)) = Some (e_gsk e * H (e_bh e), e_gsk e * H (e_pr e)).
-Proof. by move=> kh; rewrite pfinalE; exact: (live dealers_k k0 thrE memE gskE sel_ok notex nz kh). Qed.
+Theorem one_faulty_cannot_block fut ms :
+  (k <= size (undup [seq m_sender m | m <- fut ++ ms & honestb e m]))%N ->
+  p_phase (pfinal_from true e fut ms) = Finished /\
+  st_hdr (p_st (pfinal_from true e fut ms)) = Some (e_gsk e * H (e_bh e), e_gsk e * H (e_pr e)).
+Proof. by move=> kh; rewrite pfinal_fromE; exact: (live dealers_k k0 thrE memE gskE sel_ok notex nz kh). Qed.
 
 End Final.
 
